@@ -98,6 +98,14 @@ type Adapt struct {
 	FromOur []uint       // our symbol -> yaccgo symbol id
 }
 
+// ErrRepresentation marks a failed assumption of the harness about how yaccgo
+// lays out its symbol table (index = id, symbol 0 = augmented start, symbol 1 =
+// end marker "$"). It is not a verdict about any property: checks report it
+// as an infrastructure problem.
+type ErrRepresentation struct{ Msg string }
+
+func (e *ErrRepresentation) Error() string { return "harness assumption about yaccgo's symbol table does not hold: " + e.Msg }
+
 func NewAdapt(root *parser.RootVistor) (*Adapt, error) {
 	l := root.LALR1
 	G := l.G
@@ -106,7 +114,7 @@ func NewAdapt(root *parser.RootVistor) (*Adapt, error) {
 	names := map[uint]string{}
 	for idx, sy := range G.Symbols {
 		if uint(idx) != sy.ID {
-			return nil, fmt.Errorf("symbol at index %d has ID %d", idx, sy.ID)
+			return nil, &ErrRepresentation{fmt.Sprintf("symbol at index %d has ID %d", idx, sy.ID)}
 		}
 		names[sy.ID] = sy.Name
 		if sy.ID == 0 || sy.ID == 1 {
@@ -119,7 +127,7 @@ func NewAdapt(root *parser.RootVistor) (*Adapt, error) {
 		}
 	}
 	if len(G.Symbols) < 2 || G.Symbols[1].Name != "$" || G.Symbols[1].IsNonTerminator {
-		return nil, fmt.Errorf("symbol 1 is not the end marker")
+		return nil, &ErrRepresentation{"symbol 1 is not the end marker \"$\""}
 	}
 	g := &ref.CFG{NT: len(terms), NN: len(nts)}
 	for i, id := range terms {
@@ -136,7 +144,7 @@ func NewAdapt(root *parser.RootVistor) (*Adapt, error) {
 		if i == 0 {
 			cr.LHS = -1
 			if r.LeftPart.ID != 0 {
-				return nil, fmt.Errorf("rule 0 lhs is not the augmented start")
+				return nil, &ErrRepresentation{"rule 0 lhs is not symbol 0 (the augmented start)"}
 			}
 		} else {
 			o, ok := a.ToOurs[r.LeftPart.ID]
